@@ -751,4 +751,32 @@ theorem C09_src_start_test_run (s0 : St) :
   have h : Generated.ConvertSrc.startTestRun = refStart := by decide
   rw [h]; rfl
 
+open TTV.ConvertSrc in
+/-- **`__init__` is the code's**: before any run is started the converter already has a (blank) tag context and clock, so
+`tags()` and `time()` may precede the first `startTest` -/
+theorem C09_src_init (s0 : St) : xInterp Generated.ConvertSrc.init s0 = some { gtags := [], now := none } := by
+  have h : Generated.ConvertSrc.init = refInit := by decide
+  rw [h]; rfl
+
+open TTV.ConvertSrc in
+/-- **`_implied_start` is the code's**: a run that is started by its first `startTest` (no `startTestRun()` call) keeps the
+run-level tags and the time supplied before - the reset done by `startTestRun` is undone for exactly these two -/
+theorem C09_src_implied_start (s0 : St) :
+    iInterp Generated.ConvertSrc.startTestRun Generated.ConvertSrc.impliedStart s0 none = some s0 := by
+  have h1 : Generated.ConvertSrc.startTestRun = refStart := by decide
+  have h2 : Generated.ConvertSrc.impliedStart = refImpliedStart := by decide
+  rw [h1, h2]; rfl
+
+open TTV.ConvertSrc in
+/-- **`startTest` is the code's**: started explicitly or not, the `inprogress` event carries the last supplied time (the
+wall clock if there is none) and the converter's run-level state is what it was: the first event of the model's `convTest` -/
+theorem C09_src_start_test (started : Bool) (id : Nat) (s : St) :
+    tInterp Generated.ConvertSrc.startTestRun Generated.ConvertSrc.impliedStart started id Generated.ConvertSrc.startTest s
+      = some (s, [{ blank id (stamp s.now) with status := some .inprogress }]) := by
+  have h1 : Generated.ConvertSrc.startTestRun = refStart := by decide
+  have h2 : Generated.ConvertSrc.impliedStart = refImpliedStart := by decide
+  have h3 : Generated.ConvertSrc.startTest = refStartTest := by decide
+  rw [h1, h2, h3]
+  cases started <;> rfl
+
 end TTV.Props.C09
